@@ -2,6 +2,7 @@
     ([{:.}]) as a refutation, non-vacuity examples, and the lemmas quoted by [Props.v]. *)
 From Verif Require Import C03.Syntax C03.DmParse C03.StdParse.
 From Verif Require Export C03.Proofs1 C03.Proofs2 C03.Proofs3 C03.Proofs4.
+From Verif Require C03.Proofs5 C03.Proofs6 C03.Proofs7 C03.Proofs8 C03.Proofs9 C03.Proofs10 C03.Proofs11 C03.Proofs12 C03.FmtBridge.   (* quoted by Props.v by their own names *)
 From Coq Require Import Arith.
 
 (** * [ascii_cc] satisfies [CC_ok] *)
